@@ -69,97 +69,201 @@ fn macro_alpha(m: &SysModel, cap: u64, quick: bool) -> Vec<Op> {
 
 const FAR_IDX: [u64; 9] = [0, 8191, 8192, 32767, 32768, 40960, 65535, 65536, 69999];
 
+#[derive(Clone, Copy, Debug, PartialEq, Eq, serde::Serialize, serde::Deserialize)]
+pub enum RAct {
+    Fetch(u64),
+    Clear(u64, u64),
+}
+
+const R_CLEARS: [(u64, u64); 3] = [(100, 40961), (8192, 32769), (65000, 70040)];
+
+/// one sparse-replica action sequence on a fresh replica of the 70 000-block writer
+fn run_sparse_seq(w: &mut super::c03::Writer, img0: &crate::env::Image, seq: &[RAct], rep: &Report) -> u64 {
+    let n = w.model.len();
+    let mut rm = ReplicaModel::default();
+    let mut steps = 0;
+    // the replica instance stays live across the actions (pages that were never allocated in
+    // memory stay unallocated); after every action a second instance is opened on a copy of the
+    // files to check the persisted state as well
+    let (mut rc, out) = Core::from_image(img0.clone(), CacheCfg::Off);
+    if !out.is_ok() {
+        return 0;
+    }
+    for (k, act) in seq.iter().enumerate() {
+        steps += 1;
+        let mut viol: Option<(String, String)> = None;
+        match act {
+            RAct::Fetch(bi) => {
+                let req = Req { block: Some(*bi), up: if rm.len < n { Some(n) } else { None }, ..Default::default() };
+                let mut res = super::c03::StepResult { image_after: None, model_after: rm.clone(), viol: None, proof: None, accepted: false };
+                super::c03::step_live(w, &mut rc, &rm, &req, false, &mut res);
+                viol = res.viol.clone();
+                rm = res.model_after.clone();
+            }
+            RAct::Clear(s, e) => {
+                if *s < rm.len {
+                    // On a sparse replica clear() may return Err after it has logged and applied
+                    // the clear: widening the hole in the data store needs byte offsets of
+                    // neighbouring blocks whose tree nodes the replica never received. C08 is
+                    // about has()/contiguous_length, which must be exact either way; only a panic
+                    // is reported here.
+                    match guard(rc.c().clear(*s, *e)) {
+                        Out::Panic(p) => viol = Some(("clear-panics".into(), format!("replica clear({s},{e}) panicked: {p}"))),
+                        _ => {
+                            for i in *s..(*e).min(rm.len) {
+                                rm.held.remove(&i);
+                            }
+                        }
+                    }
+                }
+            }
+        }
+        if viol.is_none() {
+            viol = big_replica_diff(&mut rc, &w.model, &rm);
+        }
+        let img = rc.image();
+        if viol.is_none() {
+            let (mut rc2, out) = Core::from_image(img, CacheCfg::Off);
+            if out.is_ok() {
+                viol = big_replica_diff(&mut rc2, &w.model, &rm).map(|(c, d)| (format!("after-reopen:{c}"), d));
+            } else {
+                viol = Some(("open-fails".into(), out.brief()));
+            }
+        }
+        if let Some((clause, detail)) = viol {
+            let kinds: Vec<&str> = seq[..=k].iter().map(|a| if matches!(a, RAct::Fetch(_)) { "fetch" } else { "clear" }).collect();
+            rep.violate(
+                &clause,
+                format!("sparse-replica acts={}", kinds.join(">")),
+                format!("70000-block writer, replica actions {:?}: {}", &seq[..=k], detail),
+                json!({"prop":"C08","what":"sparse","seq":seq[..=k].to_vec()}),
+                k,
+            );
+            break;
+        }
+    }
+    steps
+}
+
+/// a replica that fills a log of exactly one bitfield page completely, the last fetches closing
+/// holes out of order: the contiguous length must jump to the full length
+fn dense_replica(rep: &Report, stats: &Stats) {
+    let n: u32 = 32768;
+    let whist = vec![Op::BatchN(n)];
+    let mut w = super::c03::build_writer(&whist);
+    let (img0, mut rm) = super::c03::empty_replica();
+    let (mut rc, out) = Core::from_image(img0, CacheCfg::Off);
+    if !out.is_ok() {
+        return;
+    }
+    let late = [5u64, 32767, 0, 16384];
+    let mut order: Vec<u64> = (0..n as u64).filter(|i| !late.contains(i)).collect();
+    order.extend_from_slice(&late);
+    let total = order.len();
+    for (k, bi) in order.into_iter().enumerate() {
+        if k % 256 == 0 {
+            crate::sup::tick();
+        }
+        let req = Req { block: Some(bi), up: if rm.len < n as u64 { Some(n as u64) } else { None }, ..Default::default() };
+        let creq = match concretize(rc.c(), &req) {
+            Out::Ok(c) => c,
+            _ => return,
+        };
+        let proof = match create_proof(w.core.c(), &creq) {
+            Out::Ok(Some(p)) => p,
+            _ => return,
+        };
+        if !matches!(apply_proof(rc.c(), &proof), Out::Ok(true)) {
+            return; // honest-proof failures are C03's to report
+        }
+        rm.len = n as u64;
+        rm.byte_len = w.model.byte_len();
+        rm.held.insert(bi);
+        stats.add("dense_replica_steps", 1);
+        if k + 6 >= total || k % 4096 == 0 {
+            let info = rc.c().info();
+            if info.contiguous_length != rm.contig() {
+                rep.violate(
+                    "contiguous_length",
+                    "dense-replica-one-full-page".into(),
+                    format!("replica of a 32768-block writer after fetching all blocks but {late:?} in order and then block {bi}: contiguous_length {} expected {}", info.contiguous_length, rm.contig()),
+                    json!({"prop":"C08","what":"dense"}),
+                    1,
+                );
+                return;
+            }
+        }
+    }
+    if let Out::Ok(()) = rc.reopen() {
+        if let Some((c, d)) = big_replica_diff(&mut rc, &w.model, &rm) {
+            rep.violate(&format!("after-reopen:{c}"), "dense-replica-one-full-page".into(), d, json!({"prop":"C08","what":"dense"}), 2);
+        }
+    }
+}
+
 fn sparse_replicas(tier: &str, rep: &Report, stats: &Stats) -> Value {
     let quick = tier == "quick";
     let n: u32 = 70000;
     let whist = vec![Op::BatchN(n)];
     let maxk = if quick { 2 } else { 3 };
-    // ordered subsets of FAR_IDX of size 1..=maxk (quick: first index restricted to 3 choices)
-    let mut seqs: Vec<Vec<u64>> = vec![];
-    fn rec(cur: &mut Vec<u64>, maxk: usize, out: &mut Vec<Vec<u64>>) {
-        if !cur.is_empty() {
-            out.push(cur.clone());
-        }
+    let mut menu: Vec<RAct> = FAR_IDX.iter().map(|i| RAct::Fetch(*i)).collect();
+    menu.extend(R_CLEARS.iter().map(|(s, e)| RAct::Clear(*s, *e)));
+    let mut seqs: Vec<Vec<RAct>> = vec![];
+    fn rec(cur: &mut Vec<RAct>, menu: &[RAct], maxk: usize, out: &mut Vec<Vec<RAct>>) {
         if cur.len() == maxk {
+            out.push(cur.clone());
             return;
         }
-        for &i in FAR_IDX.iter() {
-            if !cur.contains(&i) {
-                cur.push(i);
-                rec(cur, maxk, out);
-                cur.pop();
+        for a in menu {
+            if cur.contains(a) || (cur.is_empty() && matches!(a, RAct::Clear(..))) {
+                continue;
+            }
+            cur.push(*a);
+            rec(cur, menu, maxk, out);
+            cur.pop();
+        }
+    }
+    rec(&mut vec![], &menu, maxk, &mut seqs);
+    // every fetch sequence is followed by each clear (so that clears hit replicas whose low pages are unallocated)
+    let mut extra = vec![];
+    for s in &seqs {
+        if s.iter().all(|a| matches!(a, RAct::Fetch(_))) {
+            for (cs, ce) in R_CLEARS {
+                let mut t = s.clone();
+                t.push(RAct::Clear(cs, ce));
+                extra.push(t);
             }
         }
     }
-    rec(&mut vec![], maxk, &mut seqs);
-    // only maximal sequences need executing (prefixes are checked on the way)
-    let seqs: Vec<Vec<u64>> = seqs.into_iter().filter(|s| s.len() == maxk).collect();
+    if !quick {
+        seqs.extend(extra);
+    } else {
+        seqs.extend(extra.into_iter().step_by(3));
+    }
     let idx = AtomicUsize::new(0);
     let seqs = &seqs;
     std::thread::scope(|s| {
+        s.spawn(|| dense_replica(rep, stats));
         for _ in 0..nthreads().min(seqs.len()) {
             s.spawn(|| {
                 let mut w = super::c03::build_writer(&whist);
-                let (img0, rm0) = super::c03::empty_replica();
+                let (img0, _) = super::c03::empty_replica();
                 let mut steps = 0u64;
                 loop {
                     let i = idx.fetch_add(1, Ordering::Relaxed);
                     if i >= seqs.len() {
                         break;
                     }
-                    let seq = &seqs[i];
-                    crate::sup::set_case(&json!({"prop": "C08", "what": "sparse", "seq": seq}).to_string());
-                    let mut img = img0.clone();
-                    let mut rm = rm0.clone();
-                    for (k, &bi) in seq.iter().enumerate() {
-                        steps += 1;
-                        let req = Req {
-                            block: Some(bi),
-                            up: if rm.len < n as u64 { Some(n as u64) } else { None },
-                            ..Default::default()
-                        };
-                        // open(image) -> request -> apply -> observe live -> drop; then reopen and observe again
-                        let (mut rc, out) = Core::from_image(img.clone(), CacheCfg::Off);
-                        if !out.is_ok() {
-                            rep.violate("open-fails", format!("sparse step={k}"), format!("sparse replica {:?}: reopen {}", &seq[..k], out.brief()),
-                                json!({"prop":"C08","what":"sparse","seq":seq}), k);
-                            break;
-                        }
-                        let mut res = super::c03::StepResult { image_after: None, model_after: rm.clone(), viol: None, proof: None, accepted: false };
-                        super::c03::step_live(&mut w, &mut rc, &rm, &req, false, &mut res);
-                        let mut viol = res.viol.clone();
-                        rm = res.model_after.clone();
-                        if viol.is_none() {
-                            viol = big_replica_diff(&mut rc, &w.model, &rm);
-                        }
-                        drop(rc.core.take());
-                        img = rc.image();
-                        if viol.is_none() {
-                            let (mut rc2, out) = Core::from_image(img.clone(), CacheCfg::Off);
-                            if out.is_ok() {
-                                viol = big_replica_diff(&mut rc2, &w.model, &rm).map(|(c, d)| (format!("after-reopen:{c}"), d));
-                            } else {
-                                viol = Some(("open-fails".into(), out.brief()));
-                            }
-                        }
-                        if let Some((clause, detail)) = viol {
-                            rep.violate(
-                                &clause,
-                                format!("sparse-replica pages-apart={}", seq[..=k].iter().map(|i| i / 32768).collect::<std::collections::BTreeSet<_>>().len()),
-                                format!("70000-block writer, replica fetched {:?} in this order: {}", &seq[..=k], detail),
-                                json!({"prop":"C08","what":"sparse","seq":seq[..=k].to_vec()}),
-                                k,
-                            );
-                            break;
-                        }
-                    }
+                    crate::sup::set_case(&json!({"prop": "C08", "what": "sparse", "seq": seqs[i]}).to_string());
+                    steps += run_sparse_seq(&mut w, &img0, &seqs[i], rep);
                 }
                 stats.add("sparse_steps", steps);
                 crate::sup::clear_case();
             });
         }
     });
-    json!({"writer_blocks": n, "indices": FAR_IDX, "ordered_subsets_of_size": maxk, "sequences": seqs.len()})
+    json!({"writer_blocks": n, "fetch_indices": FAR_IDX, "replica_clears": R_CLEARS, "ordered_action_sequences_of_length": maxk, "sequences": seqs.len(),
+           "dense_replica": "32768-block writer, replica fetches every block (4 of them last, out of order)", "dense_replica_steps": stats.get("dense_replica_steps")})
 }
 
 fn big_replica_diff(rc: &mut Core, wm: &ListModel, rm: &ReplicaModel) -> Option<(String, String)> {
@@ -240,7 +344,7 @@ pub fn run(tier: &str) -> i32 {
         "distinct_observation_outcomes": outcomes.len(),
         "samples": [
             "batch 32769x1; clear(32766,32770); reopen  -> has on 0..32769 and page-boundary offsets, contiguous 32766",
-            "70000-block writer; replica fetches 65536, 0, 8192 (reopen after each)",
+            "70000-block writer; replica fetches 65536, 40960, then clears (100, 40961) (reopen after each)",
             "append[1]; append[0]; clear(0,1); reopen -> contiguous 0"
         ],
         "exhaustive": true,
@@ -252,38 +356,15 @@ pub fn replay(case: &Value, rep: &Report) {
     let what = case["what"].as_str().unwrap_or("");
     let stats = Stats::default();
     if what == "sparse" {
-        // re-run the one sequence
-        let seq: Vec<u64> = serde_json::from_value(case["seq"].clone()).unwrap_or_default();
+        let seq: Vec<RAct> = serde_json::from_value(case["seq"].clone()).unwrap_or_default();
         let whist = vec![Op::BatchN(70000)];
         let mut w = super::c03::build_writer(&whist);
-        let (mut img, mut rm) = super::c03::empty_replica();
-        for (k, &bi) in seq.iter().enumerate() {
-            let req = Req { block: Some(bi), up: if rm.len < 70000 { Some(70000) } else { None }, ..Default::default() };
-            let (mut rc, out) = Core::from_image(img.clone(), CacheCfg::Off);
-            if !out.is_ok() {
-                rep.violate("open-fails", "replay".into(), out.brief(), case.clone(), k);
-                return;
-            }
-            let mut res = super::c03::StepResult { image_after: None, model_after: rm.clone(), viol: None, proof: None, accepted: false };
-            super::c03::step_live(&mut w, &mut rc, &rm, &req, false, &mut res);
-            rm = res.model_after.clone();
-            let mut viol = res.viol.clone();
-            if viol.is_none() {
-                viol = big_replica_diff(&mut rc, &w.model, &rm);
-            }
-            drop(rc.core.take());
-            img = rc.image();
-            if viol.is_none() {
-                let (mut rc2, out) = Core::from_image(img.clone(), CacheCfg::Off);
-                if out.is_ok() {
-                    viol = big_replica_diff(&mut rc2, &w.model, &rm).map(|(c, d)| (format!("after-reopen:{c}"), d));
-                }
-            }
-            if let Some((c, d)) = viol {
-                rep.violate(&c, "replay".into(), d, case.clone(), k);
-                return;
-            }
-        }
+        let (img0, _) = super::c03::empty_replica();
+        run_sparse_seq(&mut w, &img0, &seq, rep);
+        return;
+    }
+    if what == "dense" {
+        dense_replica(rep, &stats);
         return;
     }
     if what == "E2" || what == "E2-live" {
